@@ -602,14 +602,14 @@ fn main() {
     let xcases = (2..=3usize).flat_map(|n| sequences(n, 6).flat_map(move |xd| sequences(n, 4).flat_map(move |wd| { let xd = xd.clone(); (0..2u8).map(move |ty| (xd.clone(), wd.clone(), ty)) })));
     rep.run_sub(
         "extreme-weight-ratios",
-        "all data sequences of length 2..=3 over {0, 1, 3, +-BIG, HUGE} x all weight sequences over {TINY, SMALL, 1, LARGE} (f64: BIG 1e30, HUGE 1e200, weights 1e-100, 1e-20, 1, 1e20; f32: BIG 1e10, HUGE 2^70, weights 2^-60, 1e-10, 1, 1e10) x ddof {0, 1}: weighted_var / weighted_std against the exact value (cases whose exact value is not representable are skipped and counted), and the sign clause",
+        "all data sequences of length 2..=3 over {0, 1, 3, +-BIG, HUGE} x all weight sequences over {TINY, SMALL, 1, LARGE} (f64: BIG 1e30, HUGE 1e200, weights 1e-160, 1e-20, 1, 1e20 - the product of two of them can underflow; f32: BIG 1e10, HUGE 2^70, weights 2^-70, 1e-10, 1, 1e10) x ddof {0, 1}: weighted_var / weighted_std against the exact value (cases whose exact value is not representable are skipped and counted), and the sign clause",
         xcases,
         |(xd, wd, ty), lx| {
             lx.nontrivial(xd.iter().any(|&d| d != xd[0]));
             if *ty == 0 {
-                run_extreme::<f64>(xd, wd, [0.0, 1.0, 3.0, 1e30, -1e30, 1e200], [1e-100, 1e-20, 1.0, 1e20], lx)
+                run_extreme::<f64>(xd, wd, [0.0, 1.0, 3.0, 1e30, -1e30, 1e200], [1e-160, 1e-20, 1.0, 1e20], lx)
             } else {
-                run_extreme::<f32>(xd, wd, [0.0, 1.0, 3.0, 1e10, -1e10, 1180591620717411303424.0], [8.673617379884035e-19, 1e-10, 1.0, 1e10], lx)
+                run_extreme::<f32>(xd, wd, [0.0, 1.0, 3.0, 1e10, -1e10, 1180591620717411303424.0], [8.470329472543003e-22, 1e-10, 1.0, 1e10], lx)
             }
         },
     );
